@@ -77,8 +77,92 @@ def ComInv (L : List VoteRec) (s : S) : Prop :=
   s.stuck = false → s.step = stCommit →
     ∃ r b, s.cur.id = some b ∧ quorumKnown L s.n (sentOf s.eff) s.height .precommit r (some b)
 
-structure H3 (L : List VoteRec) (base : List Msg) (R : Nat) (s : S) : Prop where
-  pre : base <+: sentOf s.eff
+theorem append_singleton_eq_append_cons {α : Type} {l pre post : List α} {m x : α}
+    (h : l ++ [m] = pre ++ x :: post) :
+    (post = [] ∧ pre = l ∧ x = m) ∨ (∃ post', post = post' ++ [m] ∧ l = pre ++ x :: post') := by
+  rcases List.eq_nil_or_concat post with rfl | ⟨post', y, rfl⟩
+  · left
+    have := List.append_inj' h (by simp)
+    simp at this
+    exact ⟨rfl, this.1.symm, this.2.symm⟩
+  · right
+    have h' : l ++ [m] = (pre ++ x :: post') ++ [y] := by simpa using h
+    have := List.append_inj' h' (by simp)
+    simp at this
+    refine ⟨post', by simp [this.2], this.1⟩
+
+/-! ### trace facts about effects other than signed messages, stated PREFIX-WISE (closed under the
+    crash cut): the Finalize rule and "every vote list written to a WAL holds known votes" -/
+
+/-- a vote list written to a WAL: every vote was known to the machine, all votes of one height -/
+def VLOk (L : List VoteRec) (sent : List Msg) (vs : List VoteRec) : Prop :=
+  (∀ v, v ∈ vs → Known L sent v) ∧ ∀ v, v ∈ vs → ∀ v', v' ∈ vs → v.height = v'.height
+
+structure T3 (L : List VoteRec) (n : Nat) (eff : List Eff) : Prop where
+  /-- the Finalize rule: the commit quorum was known BEFORE the Finalize effect -/
+  fin : ∀ pre h b post, eff = pre ++ Eff.finalize h b :: post →
+        ∃ r, quorumKnown L n (sentOf pre) h .precommit r (some b)
+  wl : ∀ pre w vs post, eff = pre ++ Eff.write w (.voteList vs) :: post → VLOk L (sentOf pre) vs
+
+theorem t3_nil (L : List VoteRec) (n : Nat) : T3 L n [] :=
+  ⟨by intro pre h b post hd; simp at hd, by intro pre w vs post hd; simp at hd⟩
+
+theorem t3_append {L : List VoteRec} {n : Nat} {eff : List Eff} (e : Eff) (ht : T3 L n eff)
+    (hf : ∀ h b, e = .finalize h b → ∃ r, quorumKnown L n (sentOf eff) h .precommit r (some b))
+    (hw : ∀ w vs, e = .write w (.voteList vs) → VLOk L (sentOf eff) vs) : T3 L n (eff ++ [e]) := by
+  refine ⟨?_, ?_⟩
+  · intro pre h b post hd
+    rcases append_singleton_eq_append_cons hd with ⟨_, rfl, hm⟩ | ⟨post', _, hd'⟩
+    · exact hf h b hm.symm
+    · exact ht.fin pre h b post' hd'
+  · intro pre w vs post hd
+    rcases append_singleton_eq_append_cons hd with ⟨_, rfl, hm⟩ | ⟨post', _, hd'⟩
+    · exact hw w vs hm.symm
+    · exact ht.wl pre w vs post' hd'
+
+/-- closed under cutting the trace anywhere -/
+theorem t3_take {L : List VoteRec} {n : Nat} {eff : List Eff} (c : Nat) (ht : T3 L n eff) :
+    T3 L n (eff.take c) := by
+  have he : eff = eff.take c ++ eff.drop c := (List.take_append_drop c eff).symm
+  refine ⟨?_, ?_⟩
+  · intro pre h b post hd
+    exact ht.fin pre h b (post ++ eff.drop c) (by have h' := he; rw [hd] at h'; simpa using h')
+  · intro pre w vs post hd
+    exact ht.wl pre w vs (post ++ eff.drop c) (by have h' := he; rw [hd] at h'; simpa using h')
+
+theorem t3_mono_L {L L' : List VoteRec} {n : Nat} {eff : List Eff} (hL : ∀ x, x ∈ L → x ∈ L')
+    (ht : T3 L n eff) : T3 L' n eff := by
+  refine ⟨?_, ?_⟩
+  · intro pre h b post hd
+    obtain ⟨r, hq⟩ := ht.fin pre h b post hd
+    exact ⟨r, quorumKnown_mono hL (fun _ h => h) hq⟩
+  · intro pre w vs post hd
+    obtain ⟨h1, h2⟩ := ht.wl pre w vs post hd
+    refine ⟨fun v hv => ?_, h2⟩
+    rcases h1 v hv with h | h
+    · exact Or.inl (hL _ h)
+    · exact Or.inr h
+
+theorem mem_finalizedOf {eff : List Eff} {h : Nat} {b : Blk} (hm : (h, b) ∈ finalizedOf eff) :
+    ∃ pre post, eff = pre ++ Eff.finalize h b :: post := by
+  induction eff with
+  | nil => simp [finalizedOf] at hm
+  | cons e t ih =>
+    cases e with
+    | finalize h' b' =>
+      simp only [finalizedOf, List.mem_cons, Prod.mk.injEq] at hm
+      rcases hm with ⟨rfl, rfl⟩ | hm
+      · exact ⟨[], t, rfl⟩
+      · obtain ⟨pre, post, hd⟩ := ih hm
+        exact ⟨_ :: pre, post, by rw [hd]; rfl⟩
+    | write w r => obtain ⟨pre, post, hd⟩ := ih (by simpa [finalizedOf] using hm); exact ⟨_ :: pre, post, by rw [hd]; rfl⟩
+    | sync w => obtain ⟨pre, post, hd⟩ := ih (by simpa [finalizedOf] using hm); exact ⟨_ :: pre, post, by rw [hd]; rfl⟩
+    | send m => obtain ⟨pre, post, hd⟩ := ih (by simpa [finalizedOf] using hm); exact ⟨_ :: pre, post, by rw [hd]; rfl⟩
+    | crash k => obtain ⟨pre, post, hd⟩ := ih (by simpa [finalizedOf] using hm); exact ⟨_ :: pre, post, by rw [hd]; rfl⟩
+
+structure H3 (L : List VoteRec) (base : List Eff) (R : Nat) (s : S) : Prop where
+  /-- the trace only grows (`base` = the trace at the beginning of the event) -/
+  pre : base <+: s.eff
   lock : LockInv L R s
   imp : ImpInv s
   com : ComInv L s
@@ -91,8 +175,19 @@ structure H3 (L : List VoteRec) (base : List Msg) (R : Nat) (s : S) : Prop where
   /-- G2, exact timing -/
   g2 : ∀ pre v post b, sentOf s.eff = pre ++ Msg.vote v :: post → v.typ = .precommit → v.val = some b →
         quorumKnown L s.n pre v.height .prevote v.round (some b)
-  /-- every Finalize effect had a known +2/3 precommit quorum of one round -/
-  fin : ∀ h b, (h, b) ∈ finalizedOf s.eff → ∃ r, quorumKnown L s.n (sentOf s.eff) h .precommit r (some b)
+  /-- every Finalize effect had a known +2/3 precommit quorum of one round; WAL vote lists hold known
+      votes — both prefix-wise -/
+  tr : T3 L s.n s.eff
+
+/-- the Finalize rule in the non-prefix form -/
+theorem H3.fin {L : List VoteRec} {base : List Eff} {R : Nat} {s : S} (hh : H3 L base R s) (h : Nat) (b : Blk)
+    (hm : (h, b) ∈ finalizedOf s.eff) : ∃ r, quorumKnown L s.n (sentOf s.eff) h .precommit r (some b) := by
+  obtain ⟨pre, post, hd⟩ := mem_finalizedOf hm
+  obtain ⟨r, hq⟩ := hh.tr.fin pre h b post hd
+  refine ⟨r, quorumKnown_mono (fun _ h => h) ?_ hq⟩
+  intro m hm
+  rw [hd, sentOf_append]
+  exact List.mem_append_left _ hm
 
 theorem finalizedOf_append' (a b : List Eff) : finalizedOf (a ++ b) = finalizedOf a ++ finalizedOf b := by
   induction a with
@@ -109,14 +204,14 @@ theorem finalizedOf_append' (a b : List Eff) : finalizedOf (a ++ b) = finalizedO
   simp [S.emit, finalizedOf_append', finalizedOf]
 
 /-- the fields of the state the trace-level part of H3 depends on -/
-def tproj (s : S) : Nat × List Msg × List (Nat × Blk) := (s.n, sentOf s.eff, finalizedOf s.eff)
+def tproj (s : S) : Nat × List Eff := (s.n, s.eff)
 
 /-- the fields `Covered` / `LockInv` depend on (besides `stuck`) -/
 def kproj (s : S) : Nat × Nat × Option Blk × Int × List Msg :=
   (s.n, s.height, s.locked.map (·.1), s.lockedRound, sentOf s.eff)
 
 section
-variable {L : List VoteRec} {base : List Msg}
+variable {L : List VoteRec} {base : List Eff}
 
 theorem covered_of_kproj {s s' : S} {R R' r : Nat} {b : Blk} (h : kproj s' = kproj s) (hR : R ≤ R')
     (hc : Covered L s R r b) : Covered L s' R' r b := by
@@ -145,9 +240,9 @@ theorem h3_build {s s' : S} {R R' : Nat} (hh : H3 L base R s) (ht : tproj s' = t
     (hlock : LockInv L R' s') (himp : ImpInv s') (hcom : ComInv L s') : H3 L base R' s' := by
   unfold tproj at ht
   simp only [Prod.mk.injEq] at ht
-  obtain ⟨h1, h2, h3⟩ := ht
+  obtain ⟨h1, h2⟩ := ht
   exact ⟨by rw [h2]; exact hh.pre, hlock, himp, hcom, by rw [h1, h2]; exact hh.g3,
-    by rw [h1, h2]; exact hh.g2, by rw [h1, h2, h3]; exact hh.fin⟩
+    by rw [h1, h2]; exact hh.g2, by rw [h1, h2]; exact hh.tr⟩
 
 /-- not in step commit (or stuck): ComInv is vacuous -/
 def NC (s : S) : Prop := s.stuck = true ∨ s.step ≠ stCommit
@@ -216,9 +311,9 @@ theorem h3_stuck {s : S} {R : Nat} (hh : H3 L base R s) : H3 L base R { s with s
   h3_same (s := s) hh (Nat.le_refl _) rfl rfl rfl rfl (fun h => by cases h)
 
 /-- re-basing: `base` only occurs in the prefix field -/
-theorem h3_rebase {s : S} {R : Nat} (base' : List Msg) (hp : base' <+: sentOf s.eff) (hh : H3 L base R s) :
+theorem h3_rebase {s : S} {R : Nat} (base' : List Eff) (hp : base' <+: s.eff) (hh : H3 L base R s) :
     H3 L base' R s :=
-  ⟨hp, hh.lock, hh.imp, hh.com, hh.g3, hh.g2, hh.fin⟩
+  ⟨hp, hh.lock, hh.imp, hh.com, hh.g3, hh.g2, hh.tr⟩
 
 /-! ### resetForNewStep / Round / Height -/
 
@@ -290,7 +385,8 @@ theorem h3_rfh {R : Nat} (s : S) (hc : Core s) (hh : H3 L base R s) :
   refine h3_build hh e1 ?_ ?_ (comInv_of_nc e6)
   · intro hs v b hv _ _ hht
     have e : sentOf (s.resetForNewHeight (s.height + 1)).eff = sentOf s.eff := by
-      have := congrArg (fun p => p.2.1) e1; exact this
+      have : (s.resetForNewHeight (s.height + 1)).eff = s.eff := congrArg (fun p => p.2) e1
+      rw [this]
     rw [e] at hv
     have := hc.bnd (.vote v) hv
     rw [e2] at hht
@@ -304,29 +400,16 @@ theorem h3_rfh {R : Nat} (s : S) (hc : Core s) (hh : H3 L base R s) :
     omega
 
 theorem h3_emit {R : Nat} (s : S) (e : Eff) (he : ∀ m, e ≠ .send m) (hf : ∀ h b, e ≠ .finalize h b)
+    (hw : ∀ w vs, e = .write w (.voteList vs) → VLOk L (sentOf s.eff) vs)
     (hh : H3 L base R s) : H3 L base R (s.emit e) := by
   have hs : sentOf (s.emit e).eff = sentOf s.eff := by
     unfold S.emit; simp only [sentOf_append]; cases e <;> simp [sentOf] at he ⊢
-  have hfn : finalizedOf (s.emit e).eff = finalizedOf s.eff := by
-    unfold S.emit; simp only [finalizedOf_append']; cases e <;> simp [finalizedOf] at hf ⊢
-  refine h3_same hh (Nat.le_refl _) ?_ ?_ rfl ?_ (fun h => ⟨h, id, id⟩)
-  · unfold tproj; rw [hs, hfn]; rfl
-  · unfold kproj; rw [hs]; rfl
-  · unfold cproj; rw [hs]; rfl
-
-theorem append_singleton_eq_append_cons {α : Type} {l pre post : List α} {m x : α}
-    (h : l ++ [m] = pre ++ x :: post) :
-    (post = [] ∧ pre = l ∧ x = m) ∨ (∃ post', post = post' ++ [m] ∧ l = pre ++ x :: post') := by
-  rcases List.eq_nil_or_concat post with rfl | ⟨post', y, rfl⟩
-  · left
-    have := List.append_inj' h (by simp)
-    simp at this
-    exact ⟨rfl, this.1.symm, this.2.symm⟩
-  · right
-    have h' : l ++ [m] = (pre ++ x :: post') ++ [y] := by simpa using h
-    have := List.append_inj' h' (by simp)
-    simp at this
-    refine ⟨post', by simp [this.2], this.1⟩
+  refine ⟨List.IsPrefix.trans hh.pre (List.prefix_append _ _), ?_, ?_, ?_, by rw [hs]; exact hh.g3,
+    by rw [hs]; exact hh.g2, ?_⟩
+  · exact lockInv_of_kproj (s := s) (by unfold kproj; rw [hs]; rfl) (Nat.le_refl _) id hh.lock
+  · exact impInv_of_iproj (s := s) rfl (fun h => ⟨h, id⟩) hh.imp
+  · exact comInv_of_cproj (s := s) (by unfold cproj; rw [hs]; rfl) (fun h => ⟨h, id⟩) hh.com
+  · exact t3_append e hh.tr (fun h b h' => absurd h' (hf h b)) hw
 
 theorem covered_send {s : S} (m : Msg) {R r : Nat} {b : Blk} (hc : Covered L s R r b) :
     Covered L (s.emit (.send m)) R r b := by
@@ -350,7 +433,7 @@ theorem h3_send {R : Nat} (s : S) (m : Msg) (hh : H3 L base R s)
     H3 L base R (s.emit (.send m)) := by
   have hs : sentOf (s.emit (.send m)).eff = sentOf s.eff ++ [m] := by simp
   refine ⟨?_, ?_, ?_, ?_, ?_, ?_, ?_⟩
-  · rw [hs]; exact List.IsPrefix.trans hh.pre (List.prefix_append _ _)
+  · exact List.IsPrefix.trans hh.pre (List.prefix_append _ _)
   · intro hst v b hv ht hval hht
     rw [hs] at hv
     apply covered_send
@@ -372,10 +455,7 @@ theorem h3_send {R : Nat} (s : S) (m : Msg) (hh : H3 L base R s)
     rcases append_singleton_eq_append_cons hd with ⟨_, rfl, hm⟩ | ⟨post', _, hd'⟩
     · exact hn2 v b hm.symm ht hval
     · exact hh.g2 pre v post' b hd' ht hval
-  · intro h b hf
-    rw [finOf_emit_send] at hf
-    obtain ⟨r, hq⟩ := hh.fin h b hf
-    exact ⟨r, by rw [hs]; exact quorumKnown_append [m] hq⟩
+  · exact t3_append (.send m) hh.tr (by intro h b h'; cases h') (by intro w vs h'; cases h')
 
 theorem h3_sendProposal {R : Nat} (s : S) (b : Blk) (pol : Int) (hh : H3 L base R s) :
     H3 L base R (s.sendProposal b pol) := by
@@ -383,8 +463,8 @@ theorem h3_sendProposal {R : Nat} (s : S) (b : Blk) (pol : Int) (hh : H3 L base 
   split
   · exact hh
   have h1 := h3_emit s (.write .round (.msg (.proposal s.me s.height s.round b pol))) (by intro m; simp)
-    (by intro h b; simp) hh
-  have h2 := h3_emit _ (.sync .round) (by intro m; simp) (by intro h b; simp) h1
+    (by intro h b; simp) (by intro w vs h'; cases h') hh
+  have h2 := h3_emit _ (.sync .round) (by intro m; simp) (by intro h b; simp) (by intro w vs h'; cases h') h1
   exact h3_send _ _ h2 (by intro _ v b' hm; cases hm) (by intro w hm; cases hm) (by intro v b' hm; cases hm)
 
 
@@ -509,22 +589,18 @@ theorem h3_finalize' {R : Nat} (s : S) (b : Blk) (hst : s.stuck = false) (h8 : s
     (hcur : s.cur.id = some b) (hh : H3 L base R s) :
     H3 L base R (s.emit (.finalize s.height b)) := by
   have hs : sentOf (s.emit (.finalize s.height b)).eff = sentOf s.eff := by simp
-  have hfn : finalizedOf (s.emit (.finalize s.height b)).eff = finalizedOf s.eff ++ [(s.height, b)] := by simp
-  refine ⟨by rw [hs]; exact hh.pre, ?_, ?_, ?_, by rw [hs]; exact hh.g3, by rw [hs]; exact hh.g2, ?_⟩
+  refine ⟨List.IsPrefix.trans hh.pre (List.prefix_append _ _), ?_, ?_, ?_, by rw [hs]; exact hh.g3,
+    by rw [hs]; exact hh.g2, ?_⟩
   · exact lockInv_of_kproj (s := s) (by unfold kproj; rw [hs]; rfl) (Nat.le_refl _) id hh.lock
   · exact impInv_of_iproj (s := s) rfl (fun h => ⟨h, id⟩) hh.imp
   · exact comInv_of_cproj (s := s) (by unfold cproj; rw [hs]; rfl) (fun h => ⟨h, id⟩) hh.com
-  · intro h b' hm
-    rw [hfn] at hm
-    rw [hs]
-    rcases List.mem_append.mp hm with hm | hm
-    · exact hh.fin h b' hm
-    · simp at hm
-      obtain ⟨rfl, rfl⟩ := hm
-      obtain ⟨r, b'', h1, h2⟩ := hh.com hst h8
-      rw [hcur] at h1
-      cases h1
-      exact ⟨r, h2⟩
+  · refine t3_append _ hh.tr ?_ (by intro w vs h'; cases h')
+    intro h b' he
+    cases he
+    obtain ⟨r, b'', h1, h2⟩ := hh.com hst h8
+    rw [hcur] at h1
+    cases h1
+    exact ⟨r, h2⟩
 
 theorem h3_finalize {R : Nat} (s : S) (b : Blk) (hst : s.stuck = false) (h8 : s.step = stCommit)
     (hcur : s.cur.id = some b) (hh : H3 L base R s) :
